@@ -63,6 +63,11 @@ func c07RetainInputs(fn string) []c07RetIn {
 			out = append(out, c07RetIn{s: ref.B58Encode(b), want: b})
 		}
 		out = append(out, c07RetIn{s: "0OIl"}, c07RetIn{s: ref.B58Encode(mk(21, 9))[:10] + "_"})
+	case "base58.Decode/long": // strings of about 950 .. 4100 characters (tables or scratch space sized for "any address" end below that)
+		for _, n := range []int{700, 749, 751, 800, 1500, 3000} {
+			b := mk(n, 0x41)
+			out = append(out, c07RetIn{s: ref.B58Encode(b), want: b})
+		}
 	case "base58.CheckDecode":
 		for _, n := range []int{20, 4, 32} {
 			b := mk(n, 0x11)
@@ -103,7 +108,7 @@ func c07EvalRetain(w *mc.W, cas c07Retain) {
 			case "bech32.Decode":
 				_, d, err := bech32.Decode(in.s)
 				keep = append(keep, kept{k, d, err == nil})
-			case "base58.Decode":
+			case "base58.Decode", "base58.Decode/long":
 				d := base58.Decode(in.s)
 				keep = append(keep, kept{k, d, len(d) > 0})
 			case "base58.CheckDecode":
@@ -137,9 +142,12 @@ func c07EvalRetain(w *mc.W, cas c07Retain) {
 
 func runC07Retain(c *mc.Ctx) {
 	var cases []c07Retain
-	for _, fn := range []string{"bech32.Decode", "base58.Decode", "base58.CheckDecode", "bech32.ConvertBits"} {
+	for _, fn := range []string{"bech32.Decode", "base58.Decode", "base58.CheckDecode", "bech32.ConvertBits", "base58.Decode/long"} {
 		n := len(c07RetainInputs(fn))
 		maxLen := mc.Pick(c, 4, 5)
+		if fn == "base58.Decode/long" {
+			maxLen = mc.Pick(c, 3, 4)
+		}
 		for l := 2; l <= maxLen; l++ {
 			for i := int64(0); i < ipow(n, l); i++ {
 				seq := make([]int, l)
@@ -152,7 +160,7 @@ func runC07Retain(c *mc.Ctx) {
 			}
 		}
 	}
-	c.Space("call sequences of length 2..4(5) over 5 inputs x 4 functions, every result kept and re-examined at the end", int64(len(cases)))
+	c.Space("call sequences of length 2..4(5) over 5 inputs x 4 functions (and of length 2..3(4) over six base58 strings of 950..4100 characters), every result kept and re-examined at the end", int64(len(cases)))
 	// sequentially: the point is what one call leaves behind for the next
 	w := c.Worker()
 	for _, cs := range cases {
